@@ -172,7 +172,7 @@ impl Monitor for C09 {
         "C09"
     }
     fn engine(&self) -> &'static str {
-        "cwv-direct"
+        "cwv-direct (cw4-group) + cwv-app (cw4-stake, every 4th history)"
     }
     fn histories(&self, tier: Tier) -> u64 {
         tier.pick(300, 24_000)
@@ -186,6 +186,8 @@ impl Monitor for C09 {
             "queries_at_or_before_instantiation",
             "queries_in_the_future",
             "same_block_updates",
+            "stake_steps_checked",
+            "stake_queries_at_a_change_height",
         ]
     }
     fn rule(&self) -> &'static str {
@@ -195,6 +197,11 @@ impl Monitor for C09 {
         vec!["raw reads use the key layout exported by packages/cw4 (TOTAL_KEY, member_key)", "only executed histories are judged"]
     }
     fn run_history(&self, h: &mut Hist) {
+        if h.idx % 4 == 3 {
+            // cw4-stake pass (AppDriver)
+            crate::monitor::stake::Stake { prop: "C09" }.run(h);
+            return;
+        }
         let mut g = Group::new(&mut h.rng);
         let hostile = h.rng.chance(1, 4);
         let members = gen_members(&mut h.rng, hostile);
